@@ -330,18 +330,20 @@ impl<T: Qcow2IoOps> Qcow2Dev<T> {
             return Ok(entry);
         }
 
-        self.add_rb_slice(
-            rt_e,
-            key,
-            cls.rb_slice_off_in_table(info),
-            RefBlock::new(info.refcount_order, 1 << info.rb_slice_bits, None),
-        )
-        .await?;
+        loop {
+            self.add_rb_slice(
+                rt_e,
+                key,
+                cls.rb_slice_off_in_table(info),
+                RefBlock::new(info.refcount_order, 1 << info.rb_slice_bits, None),
+            )
+            .await?;
 
-        if let Some(entry) = rb_cache.get(key) {
-            Ok(entry)
-        } else {
-            Err("Fail to load refcount block".into())
+            // see get_l2_slice_slow(): evicted again before we got hold of
+            // it, load it once more
+            if let Some(entry) = rb_cache.get(key) {
+                return Ok(entry);
+            }
         }
     }
 
